@@ -27,6 +27,9 @@ def cargo_test(tests, scratch, timeout=1500, extra_env=None):
     # dependency build cache (re-created when absent; cargo's fingerprints rebuild the crate itself whenever
     # /repo's working tree changed).  VERIF_CARGO_CACHE="" -> build in the scratch dir and delete afterwards.
     cache = os.environ.get("VERIF_CARGO_CACHE", "/var/tmp/verif-cargo-target")
+    if cache and os.path.realpath(REPO) != "/repo":
+        import hashlib
+        cache = "%s-%s" % (cache, hashlib.md5(os.path.realpath(REPO).encode()).hexdigest()[:8])  # one cache per tree
     env["CARGO_TARGET_DIR"] = cache if cache else os.path.join(scratch, "target")
     env["CARGO_NET_OFFLINE"] = "true"
     env["VERIF_DIR"] = VERIF
